@@ -33,6 +33,52 @@ def build_case(g, idx):
     return tree, path
 
 
+RACE_SECRET, RACE_SECRET2 = 10, 13
+
+
+def race_family(v, stats, tier_):
+    from checks import race
+    # s: sticky world-writable directory of uid 0; caller uid 0.  s/lnk, s/lnkd: safe (owned by the caller);
+    # s/evil, s/evild: owned by uid 12345
+    nodes = [dict(id=5, p=2, n="s", k="dir", mode=0o1777, uid=0), dict(id=6, p=2, n="t", k="dir", mode=0o755), dict(id=7, p=6, n="f", k="file", mode=0o644),
+             dict(id=RACE_SECRET, p=6, n="secret", k="file", mode=0o644), dict(id=11, p=2, n="u", k="dir", mode=0o755), dict(id=12, p=6, n="g", k="file", mode=0o644),
+             dict(id=RACE_SECRET2, p=11, n="g", k="file", mode=0o644),
+             dict(id=8, p=5, n="lnk", k="lnk", b="../t/f", uid=0), dict(id=9, p=5, n="evil", k="lnk", b="../t/secret", uid=12345),
+             dict(id=14, p=6, n="outer", k="lnk", b="../s/lnk", uid=0)]
+    feat = {"openat2": False, "psl": 1}
+    fam = [("trailing", dict(op="resolve", path="s/lnk"), dict(act="exchange", sp=5, sn="lnk", dp=5, dn="evil"), RACE_SECRET),
+           ("trailing-open", dict(op="open", path="s/lnk", oflags=O["RDONLY"] | O["NONBLOCK"]), dict(act="exchange", sp=5, sn="lnk", dp=5, dn="evil"), RACE_SECRET),
+           ("nested-trailing", dict(op="resolve", path="t/outer"), dict(act="exchange", sp=5, sn="lnk", dp=5, dn="evil"), RACE_SECRET)]
+    # (links used as intermediate components are never refused, by the kernel's rule and by Psl.tla: s/lnkd/g is no subject here)
+    counts, _, _ = race.baseline_counts(nodes, [f[1] for f in fam], feat)
+    cases = []
+    for (name, call, act, secret), n in zip(fam, counts):
+        if n == 0:
+            raise ToolError("C15 race family: no relevant syscalls in the baseline of %s" % name)
+        for k1 in range(n + 1):
+            cases.append(dict(id="psl-race|%s|%d" % (name, k1), tree=nodes, feat=feat, trace=True, raw=False, calls=[call], sched=[dict(call=0, k=k1, acts=[act])],
+                              meta=dict(name=name, ks=[k1], secret=secret)))
+            for k2 in range(k1 + 1, n + 2):
+                if tier_ == "quick" and k2 > k1 + 3:
+                    break
+                cases.append(dict(id="psl-race|%s|%d-%d" % (name, k1, k2), tree=nodes, feat=feat, trace=True, raw=False, calls=[call],
+                                  sched=[dict(call=0, k=k1, acts=[act]), dict(call=0, k=k2, acts=[act])], meta=dict(name=name, ks=[k1, k2], secret=secret)))
+    res = run_pv(cases, jobs=8, tag="C15r")
+    outcomes = collections.Counter()
+    for c, r in zip(cases, res):
+        rs = (r.get("out") or [{}])[0].get("results") or []
+        if r.get("status") != "ok" or not rs:
+            raise ToolError("C15 race case failed: %s %s" % (c["id"], json.dumps(r)[:300]))
+        o = lib_outcome(rs[0])
+        stats["race_cases"] += 1
+        outcomes[str(o)] += 1
+        if o[0] == "ok" and o[1] == c["meta"]["secret"]:
+            v.violation(dict(check="protected-symlinks-race", pos=c["meta"]["name"]),
+                        "C15: emulated backend, sysctl=1, sticky world-writable directory: while %s ran, the safe link was exchanged with a link owned by uid 12345 at syscall boundary %s; "
+                        "the lookup went THROUGH THE UNSAFE LINK (result: its target) -- the rule must be decided on the link that is followed" % (c["calls"][0], c["meta"]["ks"]), c)
+    stats["race_outcomes"] = dict(outcomes)
+
+
 def main(tier_):
     t0 = time.time()
     v = Verdict("C15")
@@ -110,6 +156,10 @@ def main(tier_):
                                 v.violation(dict(check="protected-symlinks-fault", call=j, errno=c["meta"]["errno"]),
                                             "C15: emulated backend, sysctl=1, sticky world-writable directory owned by %d, link owned by %d, caller %d: after errno %d was injected into syscall #%d of the "
                                             "process's first lookup, lookup #%d FOLLOWED the link (%s); the kernel refuses it with EACCES" % (g["dirUid"], g["linkUid"], g["caller"], c["meta"]["errno"], c["meta"]["i"], j + 1, o), c)
+                # the rule is decided on the link that IS FOLLOWED (the kernel decides on the inode it follows): while the
+                # lookup runs, an attacker exchanges the safe link with an unsafe one (owned by neither the caller nor the
+                # directory's owner) and back -- in no schedule may the walk go through the unsafe link
+                race_family(v, stats, tier_)
     finally:
         with open(SYSCTL, "w") as f:
             f.write(orig)
@@ -118,6 +168,6 @@ def main(tier_):
     cov = dict(states=gen["distinct"], transitions=gen["states"], traces_validated_against_impl=stats["cases"], samples=samples or [dict(note="no refusing case sampled")], evaluations=stats["cases"],
                distinct_nontrivial=len([g for g in gcases if g["sysctl"] == 1 and g["sticky"] and g["ww"]]),
                rule="TLC enumerates 2x2x3x3x3x3x2 = 648 combinations; all executed on both backends; non-trivial = sysctl on and directory sticky+world-writable (the rule can fire)",
-               exhaustive=True, first_use_fault_cases=stats["fault_cases"], design_invariant_violated=design["violated"], oracle_vs_kernel_mismatch=stats["oracle_vs_kernel_mismatch"], notes=v.notes[:5], build_s=round(build_s, 1))
+               exhaustive=True, first_use_fault_cases=stats["fault_cases"], race_cases=stats["race_cases"], race_outcomes=stats.get("race_outcomes"), design_invariant_violated=design["violated"], oracle_vs_kernel_mismatch=stats["oracle_vs_kernel_mismatch"], notes=v.notes[:5], build_s=round(build_s, 1))
     write_evidence("C15", tier_, "model_checking", cov, ASSUME, time.time() - t0, len(v.violations))
     return rc
